@@ -73,3 +73,20 @@ Definition model_fast (c : case) : Q :=
   | _ => model c
   end.
 Definition verdict (c : case) : bool := close (c_tol c) (c_tol c) (model_fast c) (c_impl c).
+
+(* ---- the estimator's fractional gamut in absolute capture (ReceptorEstimator.compute_gamut(relative=False, fraction=True)) ----
+   R : captures of the perfect system (one row per wavelength: filter values times integration weights, all >= 0),
+   S : spectra of the stimulation system's extreme stimuli (one row per vertex of the intensity box, all >= 0),
+   so that the system's capture points are the rows of S R: non-negative combinations of the perfect system's points. *)
+Record fcase := { f_S : mat; f_R : mat; f_m : nat; f_U : mat; f_A : mat; f_impl : Q; f_tol : Q }.
+Definition f_X (c : fcase) : mat := matmul (f_S c) (f_R c) (f_m c).
+Definition nonnegm (M : mat) : bool := forallb (forallb (Qle_bool 0)) M.
+Definition fmodel (c : fcase) : Q :=
+  gamut_width_fast (f_A c) (f_m c) false true (f_U c) (mred (f_X c)) / gamut_width_fast (f_A c) (f_m c) false true (f_U c) (f_R c).
+Definition fverdict (c : fcase) : bool :=
+  nonnegm (f_S c) && nonnegm (f_R c) && forallb (fun r => Nat.eqb (length r) (f_m c)) (f_R c) &&
+  forallb (fun r => Nat.eqb (length r) (length (f_R c))) (f_S c) &&
+  negb (Nat.eqb (length (f_U c)) 0) &&
+  close (f_tol c) (f_tol c) (fmodel c) (f_impl c) && qlt 0 (f_impl c) && qle (f_impl c) (1 + f_tol c).
+Inductive gcase := GM (c : case) | GF (c : fcase).
+Definition gverdict (g : gcase) : bool := match g with GM c => verdict c | GF c => fverdict c end.
